@@ -427,6 +427,9 @@ func (matrix *SparseInt32Matrix) PermuteRows(pi []int) error {
   if n != m {
     return fmt.Errorf("SymmetricPermutation(): matrix is not a square matrix")
   }
+  if len(pi) != n {
+    return fmt.Errorf("PermuteRows(): permutation vector has invalid length")
+  }
   // permute matrix
   for i := 0; i < n; i++ {
     if pi[i] < 0 || pi[i] > n {
@@ -443,6 +446,9 @@ func (matrix *SparseInt32Matrix) PermuteColumns(pi []int) error {
   if n != m {
     return fmt.Errorf("SymmetricPermutation(): matrix is not a square matrix")
   }
+  if len(pi) != n {
+    return fmt.Errorf("PermuteColumns(): permutation vector has invalid length")
+  }
   // permute matrix
   for i := 0; i < m; i++ {
     if pi[i] < 0 || pi[i] > n {
@@ -458,6 +464,9 @@ func (matrix *SparseInt32Matrix) SymmetricPermutation(pi []int) error {
   n, m := matrix.Dims()
   if n != m {
     return fmt.Errorf("SymmetricPermutation(): matrix is not a square matrix")
+  }
+  if len(pi) != n {
+    return fmt.Errorf("SymmetricPermutation(): permutation vector has invalid length")
   }
   for i := 0; i < n; i++ {
     if pi[i] < 0 || pi[i] > n {
